@@ -216,6 +216,25 @@ func EncodePortable(chunks []Chunk, o EncOpts) ([]byte, Layout) {
 	return b, l
 }
 
+// appendWordRuns appends the runs of set bits of the 64-bit word x (bit 0 = value base).
+func appendWordRuns(ivs []model.Iv, x uint64, base uint64) []model.Iv {
+	for x != 0 {
+		lo := uint64(bits.TrailingZeros64(x))
+		ones := uint64(bits.TrailingZeros64(^(x >> lo)))
+		s, e := base+lo, base+lo+ones-1
+		if n := len(ivs); n > 0 && ivs[n-1].Hi+1 == s {
+			ivs[n-1].Hi = e
+		} else {
+			ivs = append(ivs, model.Iv{Lo: s, Hi: e})
+		}
+		if lo+ones >= 64 {
+			break
+		}
+		x &^= (uint64(1) << (lo + ones)) - 1
+	}
+	return ivs
+}
+
 // RuleError names the spec rule a stream breaks.
 type RuleError struct{ Rule, Detail string }
 
@@ -333,21 +352,10 @@ func DecodePortable(b []byte, strictRuns bool) ([]Chunk, int, error) {
 				return nil, 0, rule("bitmap", "truncated")
 			}
 			pc := 0
-			var cur *model.Iv
 			for w := 0; w < 1024; w++ {
 				x := binary.LittleEndian.Uint64(b[pos+8*w:])
 				pc += bits.OnesCount64(x)
-				for x != 0 {
-					t := uint64(bits.TrailingZeros64(x))
-					v := uint64(w)*64 + t
-					if cur != nil && cur.Hi+1 == v {
-						cur.Hi = v
-					} else {
-						c.Ivs = append(c.Ivs, model.Iv{Lo: v, Hi: v})
-						cur = &c.Ivs[len(c.Ivs)-1]
-					}
-					x &= x - 1
-				}
+				c.Ivs = appendWordRuns(c.Ivs, x, uint64(w)*64)
 			}
 			pos += 8192
 			if pc != card {
